@@ -48,7 +48,9 @@ TRUSTED_BASE = [
     "inspect.signature(...).bind as the run-time oracle validating Spec/Binds.v admits/binds",
 ]
 ASSUMPTIONS = [
-    "scope of the property: positional, defaulted, *args, **kwargs parameters; keyword-only / positional-only "
+    "scope of the property: positional, defaulted, *args, **kwargs parameters; DEFAULTED keyword-only parameters "
+    "added to either side are judged as not changing the verdict (grid streams '*_kwonly_impl' / '*_kwonly_iface'; "
+    "justified by C18_description_ignores_kwonly_and_locals); required keyword-only / positional-only "
     "parameters, methods with neither a first parameter nor *args (uncallable through an instance, yet accepted: "
     "C17_selfless_method_accepted_refuted) and staticmethods under verifyClass are run and recorded "
     "(coverage.distribution 'unjudged:*') but not judged",
